@@ -1,4 +1,5 @@
-// fs_shims.cpp - see fs_shims.hpp. Single-threaded use only (C19 harness).
+// fs_shims.cpp - see fs_shims.hpp. Failpoints and step hook: single-threaded use only (C19 harness). With no failpoint armed and no hook set the shims
+// only count and forward, which is all the multi-threaded mode of the harness relies on (the counters may then lose increments; they are not used there).
 #include "fs_shims.hpp"
 #include <dlfcn.h>
 #include <errno.h>
@@ -8,6 +9,8 @@
 #include <sys/types.h>
 #include <sys/stat.h>
 #include <sys/sendfile.h>
+#include <sys/syscall.h>
+#include <dirent.h>
 #include <unistd.h>
 
 namespace {
@@ -16,6 +19,8 @@ struct State {
   char prefix[256]; size_t prefixLen;
 };
 State g = { -1, 0, 0, -1, 0, 0, {0}, "", 0 };
+struct Hook { fsshim::StepHook pre; fsshim::StepPost post; long step; bool inside; };
+Hook h = { 0, 0, 0, false };
 
 template <class T> T real(T& slot, const char* name) {
   if (!slot) slot = (T)dlsym(RTLD_NEXT, name);
@@ -30,16 +35,33 @@ bool eligiblePath(const char* p) {
 
 // returns true when this call has to fail / be cut short
 bool hit(int fn, bool eligible) {
-  if (!eligible) return false;
+  if (!eligible || h.inside) return false;
   ++g.calls[fn];
   if (g.fn != fn || g.countdown <= 0) return false;
   if (--g.countdown > 0) return false;
   ++g.fired; ++g.total;
   return true;
 }
+
+// step hook: returns the step number (0 = not traced) after running the pre-hook
+long stepPre(int t, const char* p, bool eligible) {
+  if (!h.pre || h.inside || !eligible) return 0;
+  long s = ++h.step; int e = errno; h.inside = true; h.pre(t, p, s); h.inside = false; errno = e; return s;
+}
+void stepPost(int t, const char* p, long s, int ret) {
+  if (!s || !h.post) return;
+  int e = errno; h.inside = true; h.post(t, p, s, ret, e); h.inside = false; errno = e;
+}
 }
 
 namespace fsshim {
+const char* tracedName(int t) {
+  static const char* n[] = { "stat", "lstat", "access", "opendir", "mkdir", "rmdir", "unlink" };
+  return t >= 0 && t < T_N ? n[t] : "?";
+}
+void setStepHook(StepHook pre, StepPost post) { h.pre = pre; h.post = post; h.step = 0; h.inside = false; }
+void clearStepHook() { h.pre = 0; h.post = 0; }
+long steps() { return h.step; }
 const char* fnName(int fn) {
   static const char* n[] = { "open", "write", "read", "rename", "unlink", "mkdir", "rmdir", "lseek", "sendfile" };
   return fn >= 0 && fn < F_N ? n[fn] : "?";
@@ -96,19 +118,110 @@ int rename(const char* from, const char* to) {
 typedef int (*path_t)(const char*);
 static path_t r_unlink, r_rmdir;
 int unlink(const char* p) {
-  if (hit(fsshim::F_UNLINK, eligiblePath(p))) { errno = g.err; return -1; }
-  return real(r_unlink, "unlink")(p);
+  long s = stepPre(fsshim::T_UNLINK, p, eligiblePath(p));
+  if (hit(fsshim::F_UNLINK, eligiblePath(p))) { errno = g.err; stepPost(fsshim::T_UNLINK, p, s, -1); return -1; }
+  int r = real(r_unlink, "unlink")(p); stepPost(fsshim::T_UNLINK, p, s, r); return r;
 }
 int rmdir(const char* p) {
-  if (hit(fsshim::F_RMDIR, eligiblePath(p))) { errno = g.err; return -1; }
-  return real(r_rmdir, "rmdir")(p);
+  long s = stepPre(fsshim::T_RMDIR, p, eligiblePath(p));
+  if (hit(fsshim::F_RMDIR, eligiblePath(p))) { errno = g.err; stepPost(fsshim::T_RMDIR, p, s, -1); return -1; }
+  int r = real(r_rmdir, "rmdir")(p); stepPost(fsshim::T_RMDIR, p, s, r); return r;
 }
 
 typedef int (*mkdir_t)(const char*, mode_t);
 static mkdir_t r_mkdir;
 int mkdir(const char* p, mode_t m) {
-  if (hit(fsshim::F_MKDIR, eligiblePath(p))) { errno = g.err; return -1; }
-  return real(r_mkdir, "mkdir")(p, m);
+  long s = stepPre(fsshim::T_MKDIR, p, eligiblePath(p));
+  if (hit(fsshim::F_MKDIR, eligiblePath(p))) { errno = g.err; stepPost(fsshim::T_MKDIR, p, s, -1); return -1; }
+  int r = real(r_mkdir, "mkdir")(p, m); stepPost(fsshim::T_MKDIR, p, s, r); return r;
+}
+
+// ---- traced only (no failpoints): the calls a library uses to look before it acts
+typedef int (*stat_t)(const char*, struct stat*);
+static stat_t r_stat, r_lstat;
+int stat(const char* p, struct stat* st) {
+  long s = stepPre(fsshim::T_STAT, p, eligiblePath(p));
+  stat_t f = real(r_stat, "stat");
+  int r = f ? f(p, st) : (int)syscall(SYS_newfstatat, AT_FDCWD, p, st, 0);
+  stepPost(fsshim::T_STAT, p, s, r); return r;
+}
+int lstat(const char* p, struct stat* st) {
+  long s = stepPre(fsshim::T_LSTAT, p, eligiblePath(p));
+  stat_t f = real(r_lstat, "lstat");
+  int r = f ? f(p, st) : (int)syscall(SYS_newfstatat, AT_FDCWD, p, st, AT_SYMLINK_NOFOLLOW);
+  stepPost(fsshim::T_LSTAT, p, s, r); return r;
+}
+typedef int (*stat64_t)(const char*, struct stat64*);
+static stat64_t r_stat64, r_lstat64;
+int stat64(const char* p, struct stat64* st) {
+  long s = stepPre(fsshim::T_STAT, p, eligiblePath(p));
+  stat64_t f = real(r_stat64, "stat64");
+  int r = f ? f(p, st) : (int)syscall(SYS_newfstatat, AT_FDCWD, p, st, 0);
+  stepPost(fsshim::T_STAT, p, s, r); return r;
+}
+int lstat64(const char* p, struct stat64* st) {
+  long s = stepPre(fsshim::T_LSTAT, p, eligiblePath(p));
+  stat64_t f = real(r_lstat64, "lstat64");
+  int r = f ? f(p, st) : (int)syscall(SYS_newfstatat, AT_FDCWD, p, st, AT_SYMLINK_NOFOLLOW);
+  stepPost(fsshim::T_LSTAT, p, s, r); return r;
+}
+typedef int (*access_t)(const char*, int);
+static access_t r_access;
+int access(const char* p, int mode) {
+  long s = stepPre(fsshim::T_ACCESS, p, eligiblePath(p));
+  int r = real(r_access, "access")(p, mode);
+  stepPost(fsshim::T_ACCESS, p, s, r); return r;
+}
+typedef DIR* (*opendir_t)(const char*);
+static opendir_t r_opendir;
+DIR* opendir(const char* p) {
+  long s = stepPre(fsshim::T_OPENDIR, p, eligiblePath(p));
+  DIR* d = real(r_opendir, "opendir")(p);
+  stepPost(fsshim::T_OPENDIR, p, s, d ? 0 : -1); return d;
+}
+
+// the *at variants (dirfd == AT_FDCWD only) so that a library switching to them stays observable
+static bool eligibleAt(int dirfd, const char* p) { return dirfd == AT_FDCWD ? eligiblePath(p) : (p && p[0] == '/' && eligiblePath(p)); }
+typedef int (*fstatat_t)(int, const char*, struct stat*, int);
+static fstatat_t r_fstatat;
+int fstatat(int dirfd, const char* p, struct stat* st, int flags) {
+  int t = (flags & AT_SYMLINK_NOFOLLOW) ? fsshim::T_LSTAT : fsshim::T_STAT;
+  long s = stepPre(t, p, eligibleAt(dirfd, p));
+  fstatat_t f = real(r_fstatat, "fstatat");
+  int r = f ? f(dirfd, p, st, flags) : (int)syscall(SYS_newfstatat, dirfd, p, st, flags);
+  stepPost(t, p, s, r); return r;
+}
+typedef int (*fstatat64_t)(int, const char*, struct stat64*, int);
+static fstatat64_t r_fstatat64;
+int fstatat64(int dirfd, const char* p, struct stat64* st, int flags) {
+  int t = (flags & AT_SYMLINK_NOFOLLOW) ? fsshim::T_LSTAT : fsshim::T_STAT;
+  long s = stepPre(t, p, eligibleAt(dirfd, p));
+  fstatat64_t f = real(r_fstatat64, "fstatat64");
+  int r = f ? f(dirfd, p, st, flags) : (int)syscall(SYS_newfstatat, dirfd, p, st, flags);
+  stepPost(t, p, s, r); return r;
+}
+typedef int (*statx_t)(int, const char*, int, unsigned, struct statx*);
+static statx_t r_statx;
+int statx(int dirfd, const char* p, int flags, unsigned mask, struct statx* st) {
+  int t = (flags & AT_SYMLINK_NOFOLLOW) ? fsshim::T_LSTAT : fsshim::T_STAT;
+  long s = stepPre(t, p, eligibleAt(dirfd, p));
+  statx_t f = real(r_statx, "statx");
+  int r = f ? f(dirfd, p, flags, mask, st) : (int)syscall(SYS_statx, dirfd, p, flags, mask, st);
+  stepPost(t, p, s, r); return r;
+}
+typedef int (*faccessat_t)(int, const char*, int, int);
+static faccessat_t r_faccessat;
+int faccessat(int dirfd, const char* p, int mode, int flags) {
+  long s = stepPre(fsshim::T_ACCESS, p, eligibleAt(dirfd, p));
+  int r = real(r_faccessat, "faccessat")(dirfd, p, mode, flags);
+  stepPost(fsshim::T_ACCESS, p, s, r); return r;
+}
+typedef int (*mkdirat_t)(int, const char*, mode_t);
+static mkdirat_t r_mkdirat;
+int mkdirat(int dirfd, const char* p, mode_t m) {
+  long s = stepPre(fsshim::T_MKDIR, p, eligibleAt(dirfd, p));
+  if (hit(fsshim::F_MKDIR, eligibleAt(dirfd, p))) { errno = g.err; stepPost(fsshim::T_MKDIR, p, s, -1); return -1; }
+  int r = real(r_mkdirat, "mkdirat")(dirfd, p, m); stepPost(fsshim::T_MKDIR, p, s, r); return r;
 }
 
 typedef off_t (*lseek_t)(int, off_t, int);
